@@ -116,7 +116,8 @@ pub fn alphabet(cfg: &Config) -> Alpha {
     // (outside the quantified domain; explored as a deviation with a reduced, representation-level oracle)
     // index 5: PAT bit of huge pages (bit 12, overlaps the address field of 4 KiB-granular addresses: O2) — outside the domain too
     let leaf_flags = vec![P | W, P, ALL_LEAF, P | HUGE /* = PAT bit on a 4 KiB leaf; only used for 4 KiB */, W, P | W | 0x1000];
-    let parent_flags = vec![P | W, P, P | W | U, P | W | 0x200 | 0x400 | (0x7ffu64 << 52) | (1 << 63), W];
+    // index 5: the PS bit on a level-4 entry (reserved there; reachable through set_flags_p4_entry) — outside the domain, level 4 only
+    let parent_flags = vec![P | W, P, P | W | U, P | W | 0x200 | 0x400 | (0x7ffu64 << 52) | (1 << 63), W, P | W | HUGE];
     // identity map: lower-half alphabet pages whose address is also a valid physical address
     let mut ident = Vec::new();
     for sz in [2u8, 1, 0] {
@@ -218,6 +219,7 @@ pub const LEAF_IN_DOMAIN: u8 = 4;
 pub const PARENT_IN_DOMAIN: u8 = 4;
 pub const LEAF_OOD: u8 = 4;
 pub const PARENT_OOD: u8 = 4;
+pub const PARENT_P4_HUGE: u8 = 5;
 /// every PageTableFlags bit except HUGE_PAGE (bit 7) — includes ACCESSED/DIRTY, cache bits, GLOBAL, all available bits, NO_EXECUTE
 pub const ALL_LEAF: u64 = P | W | U | 0x8 | 0x10 | 0x20 | 0x40 | 0x100 | 0xe00 | (0x7ffu64 << 52) | (1 << 63);
 pub const LEAF_PAT_HUGE: u8 = 5;
@@ -264,6 +266,7 @@ pub fn actions(al: &Alpha) -> Vec<(Act, u8)> {
         for level in [4u8, 3, 2] {
             v.push((Act::SetP { level, page: pi, flags: PARENT_OOD }, 1));
         }
+        v.push((Act::SetP { level: 4, page: pi, flags: PARENT_P4_HUGE }, 1));
     }
     for i in 0..al.ident.len() as u8 {
         v.push((Act::Ident { which: i, flags: 0, sched: 0 }, 1));
@@ -503,7 +506,7 @@ fn do_sized<S: PageSize, M: Mapper<S>>(m: &mut M, act: &Act, al: &Alpha, page_va
 }
 
 pub fn is_ood_action(act: &Act) -> bool {
-    matches!(act, Act::Update { flags, .. } if *flags == LEAF_OOD) || matches!(act, Act::SetP { flags, .. } if *flags == PARENT_OOD) || matches!(act, Act::Map { flags, .. } if *flags == LEAF_PAT_HUGE)
+    matches!(act, Act::Update { flags, .. } if *flags == LEAF_OOD) || matches!(act, Act::SetP { flags, .. } if *flags == PARENT_OOD || *flags == PARENT_P4_HUGE) || matches!(act, Act::Map { flags, .. } if *flags == LEAF_PAT_HUGE)
 }
 
 /// page (size, start) an action works on
